@@ -38,6 +38,18 @@ pub enum JReader {
     /// the value is the only variant of a caller's `#[serde(untagged)]` enum: serde buffers the
     /// whole input as Content and replays it
     Untagged,
+    /// the value is read on its own AND inside the containers real programs put it in — a Vec of
+    /// two, a tuple between two sentinels, a map value, two values back to back in one stream
+    /// (StreamDeserializer), an internally tagged enum — and every one of them must agree with the
+    /// plain read; the first outcome that differs is what the oracle gets to see
+    Containers,
+}
+
+/// A caller's internally tagged enum around a cgmath record.
+#[derive(Deserialize)]
+#[serde(tag = "kind", bound(deserialize = "T: DeserializeOwned"))]
+pub enum TaggedWrap<T> {
+    Only(T),
 }
 
 /// A caller's struct embedding a cgmath record with `flatten`.
@@ -560,7 +572,7 @@ pub fn read_json<T: DeserializeOwned>(bytes: &[u8], plan: &JPlan, stats: &mut (u
         JReader::Value => serde_json::from_slice::<serde_json::Value>(bytes)
             .and_then(serde_json::from_value::<T>)
             .map_err(|e| e.to_string()),
-        JReader::Slice => serde_json::from_slice::<T>(bytes).map_err(|e| e.to_string()),
+        JReader::Slice | JReader::Containers => serde_json::from_slice::<T>(bytes).map_err(|e| e.to_string()),
         JReader::Str => match std::str::from_utf8(bytes) {
             Ok(s) => serde_json::from_str::<T>(s).map_err(|e| e.to_string()),
             Err(_) => serde_json::from_slice::<T>(bytes).map_err(|e| e.to_string()),
@@ -615,11 +627,84 @@ pub fn read_json_leaves<T: Subject>(bytes: &[u8], plan: &JPlan, stats: &mut (u32
     } else {
         read_json(bytes, plan, stats)
     };
-    r.map(|v| {
+    let direct = r.map(|v| {
         let mut g = Vec::new();
         v.read(&mut g);
         g
-    })
+    });
+    if plan.reader != JReader::Containers {
+        return direct;
+    }
+    // the same text inside containers
+    let leaves = |v: &T| {
+        let mut g = Vec::new();
+        v.read(&mut g);
+        g
+    };
+    let text = String::from_utf8_lossy(bytes).into_owned();
+    let wide = {
+        let mut k = Vec::new();
+        T::shape().leaf_kinds(&mut k);
+        k.iter().any(|x| matches!(x, Kind::I128 | Kind::U128))
+    };
+    let mut outcomes: Vec<(&'static str, Result<Vec<u64>, String>)> = Vec::new();
+    let run = |f: &dyn Fn() -> Result<Vec<Vec<u64>>, String>| -> Vec<Result<Vec<u64>, String>> {
+        match catch_unwind(AssertUnwindSafe(f)) {
+            Ok(Ok(vs)) => vs.into_iter().map(Ok).collect(),
+            Ok(Err(e)) => vec![Err(e)],
+            Err(p) => vec![Err(format!("PANIC: {}", panic_msg(p)))],
+        }
+    };
+    for r in run(&|| serde_json::from_str::<Vec<T>>(&format!("[{},{}]", text, text)).map(|v| v.iter().map(leaves).collect()).map_err(|e| e.to_string())) {
+        outcomes.push(("inside Vec<T>", r));
+    }
+    for r in run(&|| serde_json::from_str::<(u8, T, u8)>(&format!("[7,{},9]", text)).map(|v| vec![leaves(&v.1)]).map_err(|e| e.to_string())) {
+        outcomes.push(("inside a tuple between two sentinels", r));
+    }
+    for r in run(&|| {
+        serde_json::from_str::<std::collections::BTreeMap<String, T>>(&format!("{{\"a\":{},\"b\":{}}}", text, text))
+            .map(|m| m.values().map(leaves).collect())
+            .map_err(|e| e.to_string())
+    }) {
+        outcomes.push(("as a map value", r));
+    }
+    for r in run(&|| {
+        let two = format!("{}\n{}", text, text);
+        let mut out = Vec::new();
+        for item in serde_json::Deserializer::from_str(&two).into_iter::<T>() {
+            out.push(leaves(&item.map_err(|e| e.to_string())?));
+        }
+        if out.len() != 2 {
+            return Err(format!("stream of two values yielded {}", out.len()));
+        }
+        Ok(out)
+    }) {
+        outcomes.push(("two values back to back in one stream", r));
+    }
+    let i = bytes.iter().position(|c| !c.is_ascii_whitespace()).unwrap_or(0);
+    if bytes.get(i) == Some(&b'{') && !wide {
+        let rest = &text[i + 1..];
+        let empty = rest.trim_start().starts_with('}');
+        let tagged = format!("{{\"kind\":\"Only\"{}{}", if empty { "" } else { "," }, rest);
+        for r in run(&|| serde_json::from_str::<TaggedWrap<T>>(&tagged).map(|TaggedWrap::Only(v)| vec![leaves(&v)]).map_err(|e| e.to_string())) {
+            outcomes.push(("inside an internally tagged enum", r));
+        }
+    }
+    for (what, o) in outcomes {
+        let same = match (&direct, &o) {
+            (Ok(a), Ok(b)) => a == b,
+            (Err(_), Err(_)) => true,
+            _ => false,
+        };
+        if !same {
+            // hand the oracle the outcome that differs from the plain read
+            return match o {
+                Ok(v) => Ok(v),
+                Err(e) => Err(format!("{} ({}; the plain read gave {})", e, what, if direct.is_ok() { "Ok" } else { "Err" })),
+            };
+        }
+    }
+    direct
 }
 
 /// Execute one byte-level plan for the type behind `ops`.
